@@ -497,6 +497,9 @@ func exploreCrashes(ps *spec.Plan, r *rand.Rand, secondOneIn int, res *CaseResul
 }
 
 func c09Run(c *Ctx, idx int) CaseResult {
+	if idx >= replayCases(c.Tier) {
+		return realKillCase("C09", c, idx)
+	}
 	res := CaseResult{Counters: map[string]int{}}
 	ps, src := crashPlanOf("C09", c.Seed, c.Tier, idx)
 	r := gen.Rand(c.Seed, "crashx", idx)
@@ -535,6 +538,9 @@ func c09Run(c *Ctx, idx int) CaseResult {
 }
 
 func c10Run(c *Ctx, idx int) CaseResult {
+	if idx >= replayCases(c.Tier) {
+		return realKillCase("C10", c, idx)
+	}
 	res := CaseResult{Counters: map[string]int{}}
 	ps, src := crashPlanOf("C10", c.Seed, c.Tier, idx)
 	r := gen.Rand(c.Seed, "crashx", idx)
@@ -597,11 +603,19 @@ func c10Run(c *Ctx, idx int) CaseResult {
 	return res
 }
 
-func crashCases(tier string) int {
+// replay cases first, then real-kill cases
+func replayCases(tier string) int {
 	if tier == "thorough" {
 		return crashBox + 300
 	}
 	return 18
+}
+
+func crashCases(tier string) int {
+	if tier == "thorough" {
+		return replayCases(tier) + 200
+	}
+	return replayCases(tier) + 8
 }
 
 // secondOneIn: one crash point in n is followed by every second crash during its recovery.
@@ -613,7 +627,7 @@ func secondOneIn(tier string) int {
 }
 
 func init() {
-	crashRule := "case i = one plan and EVERY prefix k of its committed write sequence (captured with sqlite.WithCapture during an uninterrupted run, replayed into a fresh in-memory store, then a normal Workstream recovers); a PRNG share of the crash points (quick 1/30, thorough 1/10) is followed by every second crash during recovery; quick: 12 PRNG samples of the bounded box + 6 random plans; thorough: the whole box (1272 shapes blocks<=2 x sequences<=2 x actions<=2 x outcome masks x tolerance{0,1} x concurrency{1,2}, plus 486 = every subset x pass/fail of the five check groups at plan and block level) + 300 random plans; plugin outcomes are a function of the action alone; distinct by plan spec"
+	crashRule := "case i = one plan and EVERY prefix k of its committed write sequence (captured with sqlite.WithCapture during an uninterrupted run, replayed into a fresh in-memory store, then a normal Workstream recovers); a PRNG share of the crash points (quick 1/30, thorough 1/10) is followed by every second crash during recovery; quick: 12 PRNG samples of the bounded box + 6 random plans; thorough: the whole box (1272 shapes blocks<=2 x sequences<=2 x actions<=2 x outcome masks x tolerance{0,1} x concurrency{1,2}, plus 486 = every subset x pass/fail of the five check groups at plan and block level) + 300 random plans; plugin outcomes are a function of the action alone; cross-validation of the crash model by real kills (quick 8, thorough 200 cases): a process running a random plan on a FILE-backed store SIGKILLs itself immediately before/after its PRNG-chosen k-th write, a second process opens the directory, snapshots, recovers and reports, same oracles; distinct by plan spec"
 	register(&Prop{
 		ID: "C09", Level: "fault_enumeration", Batch: 1, PerCaseTimeout: 300 * time.Second,
 		Rule: crashRule + "; non-trivial = the plan has at least one crash point with a durable action result", Cases: crashCases,
